@@ -167,6 +167,12 @@ def oracle(ctx):
                 bl = base_lines
                 if ty == 'container' and key not in ('Image', 'Rootfs') and rnd.random() < 0.25:
                     bl = ['Rootfs=/var/lib/rootfs']   # the other object a container can be about
+                if rnd.random() < 0.3:
+                    # another key of the unit's tables assigned empty (a reset, as a drop-in would do): it adds nothing, and
+                    # it takes nothing away from the keys beside it
+                    others = [k2 for k2, kd2, _ in key_specs(ty) if kd2 in ('str', 'all', 'bool') and k2 != key and k2 + '=' not in ''.join(bl)]
+                    if others:
+                        extra = extra + [rnd.choice(others) + '=']
                 cases.append((ty, key, kind, spec, v, bl + extra))
     base_ops, new_ops, metas = [], [], []
     for ty, key, kind, spec, v, lines in cases:
